@@ -7,8 +7,10 @@ import (
 	"math/rand"
 	"net/http"
 	"net/http/httptest"
+	"net/url"
 	"os"
 	"runtime"
+	"sort"
 	"strings"
 	"sync"
 	"sync/atomic"
@@ -31,43 +33,66 @@ type c12Case struct {
 	Ops      int        `json:"ops_per_goroutine"`
 }
 
-// c12Stalled decides whether unfinished workers are deadlocked: two goroutine dumps two seconds apart in which every
-// goroutine that is inside Helios code is parked on a sync primitive with an unchanged stack.
-func c12Stalled() (bool, string) {
-	dump := func() string {
-		buf := make([]byte, 8<<20)
-		return string(buf[:runtime.Stack(buf, true)])
-	}
-	d1 := dump()
-	time.Sleep(2 * time.Second)
-	d2 := dump()
-	blocked := func(d string) (n int, sig string) {
-		for _, g := range strings.Split(d, "\n\n") {
-			if !strings.Contains(g, "github.com/0xReLogic/Helios/internal/") || strings.Contains(g, "internal/verifh") && !strings.Contains(g, "internal/loadbalancer") {
+// c12Stalled decides whether goroutines inside Helios are deadlocked: three goroutine dumps four seconds apart; a
+// goroutine (same id) whose stack contains Helios code and that is parked on a mutex / rwmutex / waitgroup with a
+// byte-identical stack in all three is stuck. It is called only after an operation has been in flight for 25 s
+// (no operation of the mix legitimately takes that long: proxied requests carry a 15 s client timeout) or after
+// 20 s without any progress. Returns the stuck goroutines' stacks ("" when there are none) and the last dump.
+func c12Stalled() (string, string) {
+	dump := func() map[string][2]string {
+		buf := make([]byte, 16<<20)
+		out := map[string][2]string{}
+		for _, g := range strings.Split(string(buf[:runtime.Stack(buf, true)]), "\n\n") {
+			i := strings.IndexByte(g, '\n')
+			if i < 0 || !strings.HasPrefix(g, "goroutine ") {
 				continue
 			}
-			head := g
-			if i := strings.IndexByte(g, '\n'); i > 0 {
-				head = g[:i]
+			head, body := g[:i], g[i+1:]
+			f := strings.Fields(head)
+			if len(f) < 3 {
+				continue
 			}
-			if strings.Contains(head, "sync.Mutex.Lock") || strings.Contains(head, "sync.RWMutex") || strings.Contains(head, "semacquire") || strings.Contains(head, "sync.WaitGroup.Wait") {
-				n++
-				sig += head[strings.Index(head, "["):] + ";"
-			} else if strings.Contains(head, "IO wait") || strings.Contains(head, "running") || strings.Contains(head, "runnable") || strings.Contains(head, "sleep") || strings.Contains(head, "select") {
-				return -1, ""
+			state := head[strings.Index(head, "["):]
+			if k := strings.IndexAny(state, ",]"); k > 0 {
+				state = state[1:k]
 			}
+			out[f[1]] = [2]string{state, body}
 		}
-		return n, sig
+		return out
 	}
-	n1, s1 := blocked(d1)
-	n2, s2 := blocked(d2)
-	if n1 > 0 && n1 == n2 && s1 == s2 {
-		return true, d2
+	lockWait := func(state string) bool {
+		return strings.HasPrefix(state, "sync.Mutex.Lock") || strings.HasPrefix(state, "sync.RWMutex") || strings.HasPrefix(state, "semacquire") || strings.HasPrefix(state, "sync.WaitGroup.Wait")
 	}
-	return false, d2
+	inHelios := func(body string) bool {
+		return strings.Contains(body, "github.com/0xReLogic/Helios/internal/") && strings.Contains(strings.ReplaceAll(body, "Helios/internal/verifh", ""), "github.com/0xReLogic/Helios/internal/")
+	}
+	d1 := dump()
+	time.Sleep(4 * time.Second)
+	d2 := dump()
+	time.Sleep(4 * time.Second)
+	d3 := dump()
+	var stuck []string
+	for id, g := range d1 {
+		if lockWait(g[0]) && inHelios(g[1]) && d2[id] == g && d3[id] == g {
+			stuck = append(stuck, "goroutine "+id+" ["+g[0]+"]:\n"+g[1])
+		}
+	}
+	sort.Strings(stuck)
+	var all strings.Builder
+	for id, g := range d3 {
+		all.WriteString("goroutine " + id + " [" + g[0] + "]:\n" + g[1] + "\n\n")
+	}
+	return strings.Join(stuck, "\n\n"), all.String()
 }
 
+// c12Wedged: an earlier case of this process ended with deadlocked goroutines; the process is no basis for further verdicts.
+var c12Wedged bool
+
 func c12Run(e *vh.Env, c c12Case, o *vh.Out) {
+	if c12Wedged {
+		o.Inconcl("case %s skipped: an earlier case left deadlocked goroutines in this process", vh.J(c))
+		return
+	}
 	bes := newBackends(3)
 	defer closeBackends(bes)
 	cfg := faultConfig(c.Strategy, bes, c.Feat)
@@ -109,7 +134,9 @@ func c12Run(e *vh.Env, c c12Case, o *vh.Out) {
 	})
 	defer vhook.Set(nil)
 	var done atomic.Int64
-	var opCount [8]atomic.Int64
+	var opCount [9]atomic.Int64
+	var clientTimeouts atomic.Int64
+	opStart := make([]atomic.Int64, c.G) // unix nanoseconds of the operation in flight (0: none)
 	var panics sync.Map
 	total := int64(c.G)
 	var wg sync.WaitGroup
@@ -126,11 +153,12 @@ func c12Run(e *vh.Env, c c12Case, o *vh.Out) {
 		r := rand.New(rand.NewSource(e.Seed*1000003 + int64(c.Round)*7919 + int64(g)))
 		var mine []*fakeConn
 		for i := 0; i < c.Ops; i++ {
-			role := g % 8
+			role := g % 9
 			if r.Intn(5) == 0 {
-				role = r.Intn(8)
+				role = r.Intn(9)
 			}
 			opCount[role].Add(1)
+			opStart[g].Store(time.Now().UnixNano())
 			switch role {
 			case 0, 1, 2: // proxied traffic through the real listener
 				var sc vh.Script
@@ -151,6 +179,8 @@ func c12Run(e *vh.Env, c c12Case, o *vh.Out) {
 				if resp, err := client.Do(req); err == nil {
 					io.Copy(io.Discard, resp.Body)
 					resp.Body.Close()
+				} else if ue, ok := err.(*url.Error); ok && ue.Timeout() {
+					clientTimeouts.Add(1) // 15 s without an answer: the monitor below looks for goroutines stuck on a lock
 				}
 			case 3: // picking storms
 				rq := httptest.NewRequest("GET", "/", nil)
@@ -189,6 +219,16 @@ func c12Run(e *vh.Env, c c12Case, o *vh.Out) {
 						sys.LB.IsBackendHealthy(b)
 					}
 				}
+			case 8: // the periodic maintenance passes (every 10 min / 30 s in production) run now, amid the traffic
+				if rl := sys.LB.VerifLimiter(); rl != nil {
+					rl.VerifCleanup()
+				}
+				if p := sys.LB.VerifWSPool(); p != nil {
+					p.VerifCleanup()
+				}
+				if r.Intn(3) == 0 {
+					time.Sleep(time.Duration(r.Intn(300)) * time.Microsecond)
+				}
 			case 7: // websocket pool
 				if p := sys.LB.VerifWSPool(); p != nil {
 					bn := fmt.Sprintf("b%d", r.Intn(3))
@@ -211,6 +251,7 @@ func c12Run(e *vh.Env, c c12Case, o *vh.Out) {
 					sys.metricsJSON()
 				}
 			}
+			opStart[g].Store(0)
 		}
 	}
 	for g := 0; g < c.G; g++ {
@@ -223,7 +264,8 @@ func c12Run(e *vh.Env, c c12Case, o *vh.Out) {
 	go func() { wg.Wait(); close(finished) }()
 	stopped := false
 	lastProgress, lastDone := time.Now(), int64(-1)
-	stall := ""
+	stall, stallAll := "", ""
+	analysedTimeouts, analyses := int64(0), 0
 loop:
 	for {
 		select {
@@ -243,12 +285,31 @@ loop:
 			stopped = true
 			go shutdownGracefully(sys.Srv, sys.LB, 3*time.Second)
 		}
-		if time.Since(lastProgress) > 20*time.Second {
-			if dead, dump := c12Stalled(); dead {
-				stall = dump
-			} else {
-				o.Inconcl("no progress for 20 s but the goroutine dump is not a pure lock wait (case %s)", vh.J(c))
+		longest := time.Duration(0)
+		for g := range opStart {
+			if t0 := opStart[g].Load(); t0 != 0 {
+				if d := time.Duration(time.Now().UnixNano() - t0); d > longest {
+					longest = d
+				}
 			}
+		}
+		if ct := clientTimeouts.Load(); ct > analysedTimeouts && analyses < 3 {
+			// a proxied request was not answered within the client's 15 s: look for stuck goroutines, carry on if there are none
+			analysedTimeouts, analyses = ct, analyses+1
+			if stuck, all := c12Stalled(); stuck != "" {
+				stall, stallAll = stuck, all
+				c12Wedged = true
+				break loop
+			}
+		}
+		if time.Since(lastProgress) > 20*time.Second || longest > 25*time.Second {
+			stuck, all := c12Stalled()
+			if stuck != "" {
+				stall, stallAll = stuck, all
+			} else {
+				o.Inconcl("an operation has been in flight for %v (no progress for %v) but no goroutine inside Helios is parked on a lock (case %s)", longest, time.Since(lastProgress), vh.J(c))
+			}
+			c12Wedged = true
 			break loop
 		}
 	}
@@ -260,10 +321,10 @@ loop:
 	}
 	o.Obs("operations", lastDone)
 	if stall != "" {
-		// keep the dump for the witness; the process cannot continue with wedged goroutines
+		// keep the whole dump for the witness
 		path := fmt.Sprintf("%s/stall-%d.txt", e.TmpDir, c.Round)
-		os.WriteFile(path, []byte(stall), 0o644)
-		o.Viol("C12|deadlock|"+c12StallFrame(stall), fmt.Sprintf("%s: no operation completed for 20 s and every goroutine inside Helios is parked on a lock with an unchanged stack (%d workers unfinished)", vh.J(c), int64(c.G)-done.Load()), map[string]any{"goroutines": trunc(stall, 6000)})
+		os.WriteFile(path, []byte(stallAll), 0o644)
+		o.Viol("C12|deadlock|"+c12StallFrame(stall), fmt.Sprintf("%s: an operation did not return and goroutines inside Helios stay parked on a lock with an unchanged stack over 8 s (%d workers unfinished)", vh.J(c), int64(c.G)-done.Load()), map[string]any{"stuck_goroutines": trunc(stall, 6000)})
 		return
 	}
 	if !stopped {
@@ -322,7 +383,7 @@ func init() {
 			return cs
 		},
 		func(e *vh.Env, c c12Case, o *vh.Out) {
-			o.Need("operations", "runs_completed", "ops_role_0", "ops_role_4", "ops_role_5", "ops_role_6")
+			o.Need("operations", "runs_completed", "ops_role_0", "ops_role_4", "ops_role_5", "ops_role_6", "ops_role_8")
 			c12Run(e, c, o)
 			if c.Round == 0 && c.Strategy == "weighted_round_robin" && len(o.Samples) == 0 {
 				o.Sample(map[string]any{"part": "race-stress", "case": c, "roles": "0-2 proxied traffic (200/404/500/aborted body) through the real listener; 3 NextBackend storms; 4 admin add/remove/strategy/list; 5 /metrics,/health,/v1/backends readers; 6 MarkBackendUnhealthy/IsBackendHealthy; 7 websocket pool; shutdown races the last operations; hook points sleep 0-200us at random"})
